@@ -253,6 +253,17 @@ InboundEst(p) ==
   /\ link' = [link EXCEPT ![p] = "estp"]
   /\ UNCHANGED <<role, redial, pctx, pdials, pacts, osub, ex, eng, qc, mon, kf>>
 
+\* the open_substream error branch of on_connection_established for the actions Fs: since /repo commit f6b26d6
+\* the owning query of every action is told (send and response failure).  Before, only FIND_NODE style actions
+\* were (tag); the seeded mutation registers the send failure only, which lookups ignore.
+EstOpenErr(p, Fs) ==
+  LET lost == {a \in Fs : a.k # "find"}
+      fixed == "est-open-substream-err-unreported" \in Fixed
+      told == IF Mut = "est_open_err_send_failure_only" THEN {a \in Fs : a.k # "find"}
+              ELSE {a \in Fs : a.k = "find" \/ fixed} IN
+  /\ eng' = RegFailSet(eng, {a.q : a \in told}, p)
+  /\ kf' = IF lost # {} /\ ~fixed THEN kf \cup {"est-open-substream-err-unreported"} ELSE kf
+
 \* TransportEvent::ConnectionEstablished -> on_connection_established
 DeliverEst(p) ==
   /\ link[p] = "estp"
@@ -274,11 +285,19 @@ DeliverEst(p) ==
         /\ link' = [link EXCEPT ![p] = "closedp"]
         /\ pctx' = [pctx EXCEPT ![p] = TRUE]
         /\ pdials' = [pdials EXCEPT ![p] = {}]
-        /\ LET lost == {a \in pdials[p] : a.k # "find"}
-               fixed == "est-open-substream-err-unreported" \in Fixed IN
-           /\ eng' = RegFailSet(eng, {a.q : a \in {b \in pdials[p] : b.k = "find" \/ fixed}}, p)
-           /\ kf' = IF lost # {} /\ ~fixed THEN kf \cup {"est-open-substream-err-unreported"} ELSE kf
+        /\ EstOpenErr(p, pdials[p])
         /\ UNCHANGED <<pacts, osub>>
+     \/ \* the connection is fine but open_substream fails for some of the waiting actions (ChannelClogged: more
+        \* actions were waiting for the dial than the connection's command channel holds)
+        /\ role[p] = "any" /\ ~pctx[p]
+        /\ \E Fs \in (SUBSET pdials[p]) \ {{}} :
+             /\ Fs # pdials[p]
+             /\ link' = [link EXCEPT ![p] = "up"]
+             /\ pctx' = [pctx EXCEPT ![p] = TRUE]
+             /\ pacts' = [pacts EXCEPT ![p] = pdials[p] \ Fs]
+             /\ pdials' = [pdials EXCEPT ![p] = {}]
+             /\ osub' = osub \cup {[p |-> p, q |-> a.q, k |-> a.k, tr |-> FALSE] : a \in pdials[p] \ Fs}
+             /\ EstOpenErr(p, Fs)
 
 \* the connection ends (remote closed, keep-alive, node died); ConnectionClosed is in flight
 ConnClose(p) ==
